@@ -22,6 +22,9 @@ const SOUP: &[&str] = &[
     "--", "~~", "[:alpha:]", "[:^digit:]", "\\1", "{", "}", ",", "0", "1", "9", "#", "~", "&",
     "\"", "'", " ", "\\", "\\p{sc=Greek}", "\\b{start}", "\\<", "(?x)", "(?-", ":", "<", ">", "=",
     "!", "\\Q", "\\pX", "\\x", "\\u", "[a-c]", "[^a]", "[a&&b]", "(a|b)", "a{2}", "\\.",
+    "\0", "\u{7f}", "\u{80}", "\\x00", "\\u{D800}", "\\x{10FFFF}", "\\U0010FFFF", "[\\x00-\\x{10FFFF}]",
+    "[z-a]", "(?u)", "(?s)", "(?m)", "(?U)", "(?R)", "\\G", "\\K", "(?#c)", "(?<n>", "\\k<n>", "\\C", "\\X",
+    "(?u:", "(?-u:", "\\p{^L}", "\\p{L}", "[[:word:]]", "[\\d-z]", "\\-", "\\ ",
 ];
 
 fn soup_string(rng: &mut Rng) -> String {
@@ -410,7 +413,7 @@ pub fn c15_planted_case(rng: &mut Rng, _i: u64, st: &mut Stats) -> CaseOutcome {
     if rng.chance(1, 12) {
         return c15_shadowed_case(rng, st);
     }
-    let mut p = GenParams::default();
+    let mut p = GenParams::varied(rng);
     p.allow_empty_alt = false;
     let base = gen_re(rng, &p);
     let (cat, frag) = PLANTS[rng.below(PLANTS.len())];
@@ -485,7 +488,7 @@ fn gen_rich_class(rng: &mut Rng, depth: usize) -> Class {
 }
 
 pub fn c15_supported_case(rng: &mut Rng, _i: u64, st: &mut Stats) -> CaseOutcome {
-    let p = GenParams::default();
+    let p = GenParams::varied(rng);
     let mut re = gen_re(rng, &p);
     // decorate with richer classes
     if rng.chance(1, 2) {
@@ -741,10 +744,31 @@ pub fn c16_case(rng: &mut Rng, _i: u64, st: &mut Stats) -> CaseOutcome {
         if m2 != m {
             return Err(format!("Match {:?} round trips to {:?}", m, m2));
         }
-        let pos = scnr::Position::new(*rng.pick(&[1usize, 2, usize::MAX]), *rng.pick(&[1usize, 9, usize::MAX]));
+        // any value of the type, not only those a scan produces (the fields are public; 0 included)
+        let pos = scnr::Position { line: *rng.pick(&[0usize, 1, 2, usize::MAX]), column: *rng.pick(&[0usize, 1, 9, usize::MAX]) };
         let p2: scnr::Position = serde_json::from_str(&serde_json::to_string(&pos).unwrap()).map_err(|e| e.to_string())?;
         if p2 != pos {
             return Err(format!("Position {:?} round trips to {:?}", pos, p2));
+        }
+        // a MatchExt can only be obtained from a scan or from its serialized form: write one with an
+        // independent writer, read it, compare every accessor with the numbers written, and round trip
+        {
+            let nums: Vec<usize> = (0..7).map(|_| *rng.pick(&[0usize, 1, 3, 77, 65_536, usize::MAX - 1, usize::MAX])).collect();
+            let text = format!(
+                "{{\"token_type\":{},\"span\":{{\"start\":{},\"end\":{}}},\"start_position\":{{\"line\":{},\"column\":{}}},\"end_position\":{{\"line\":{},\"column\":{}}}}}",
+                nums[0], nums[1], nums[2], nums[3], nums[4], nums[5], nums[6]
+            );
+            let me: scnr::MatchExt = serde_json::from_str(&text).map_err(|e| format!("MatchExt layout {} not accepted: {}", text, e))?;
+            let got = [me.token_type(), me.start(), me.end(), me.start_position().line, me.start_position().column, me.end_position().line, me.end_position().column];
+            if got[..] != nums[..] {
+                return Err(format!("MatchExt read from {} has (type, start, end, start line, start column, end line, end column) = {:?}", text, got));
+            }
+            let again = serde_json::to_string(&me).map_err(|e| e.to_string())?;
+            let me2: scnr::MatchExt = serde_json::from_str(&again).map_err(|e| e.to_string())?;
+            if me2 != me {
+                return Err(format!("MatchExt {:?} round trips to {:?}", me, me2));
+            }
+            st.count("constructed_match_ext_roundtrips");
         }
         st.count("value_roundtrips");
         Ok(())
@@ -756,7 +780,7 @@ pub fn c16_case(rng: &mut Rng, _i: u64, st: &mut Stats) -> CaseOutcome {
     }
 
     // (b) behavioural twin: valid configuration, scanner from x and from the round-tripped value
-    let mut gp = GenParams::default();
+    let mut gp = GenParams::varied(rng);
     gp.max_nodes = 8;
     let cfg = gen_multi_mode(rng, &gp, 25, 3);
     if !cfg.all_res().iter().all(|r| print_parse_roundtrip_ok(r)) {
